@@ -4,6 +4,10 @@ The verdict of the four conformance checks is a pure function of (response defin
 product of a small grammar of response definitions with a small alphabet of responses; every pair is run through the real
 checks (each check function on its own, and all four through ``Case.validate_response``) and judged by the independent
 verdict function ``oracles/responses.py`` (which evaluates schemas with ``oracles/jsonschema_mini.py``).
+
+Review round 2 (``mc/c04_extra.py``): family X adds four dimensions with their own response alphabets (deeper schemas and bodies,
+spellings of documented / received media types, header definitions and values, the response built by ``Response.from_requests``),
+OpenAPI 3.1 runs in the quick tier in a slim form, and ``APIOperation.is_response_valid`` is observed next to the checks.
 """
 
 from __future__ import annotations
@@ -12,6 +16,7 @@ import itertools
 import json
 from typing import Any
 
+from mc import c04_extra as extra
 from mc.runner import Result, digest
 from oracles import responses as oracle
 from oracles.jsonschema_mini import verdict
@@ -23,7 +28,9 @@ ENGINES = ["E2"]
 RULE = (
     "work item = one one-operation document: family S = (spec, set of response keys, which key carries response object Pa while all "
     "others carry the distinguishable Pb); family R = (spec, key set, response object = content variant x schema family x header "
-    "variant x behind-$ref); every item is paired with the full product status x Content-Type x body x X-A header; a pair is "
+    "variant x behind-$ref); every item of S and R is paired with the full product status x Content-Type x body x X-A header; family X "
+    "(review round 2, mc/c04_extra.py) = (spec, dimension in schema/media/headers/entry, one document variant of that dimension) paired "
+    "with that dimension's own alphabet of responses; a pair is "
     "non-trivial when the status is documented and at least one of the content-type/header/body aspects is decided by the oracle; "
     "distinct = distinct (document, response) pairs"
 )
@@ -42,17 +49,31 @@ XA_VALUES = [["absent", None], ["valid", "1"], ["invalid", "x"]]
 R_STATUSES_QUICK = [200, 204, 404]  # family R, quick: one selecting, one content-free, one non-selecting / default-selected status
 S_KEYS_3 = ["201", "2XX", "4XX", "default"]
 S_KEYS_2 = ["201", "default"]  # OpenAPI 2.0 has no status code ranges
+# family X is the same in both tiers: specs 3.0, 2.0, 3.1; APIOperation.is_response_valid and Case.validate_response on every pair
+_FAMILY_X = {
+    "schema": {"documents": "key 200 | default x behind-$ref x schema in {required_int, nullable, ref, recursive_ref, " + ", ".join(extra.SCHEMA_FAMILIES) + "}",
+               "responses": "status 200 x Content-Type {json, json;charset, problem+json, absent} x bodies of the family + {}, [], valid body in white space"},
+    "media": {"documents": "key 200 x behind-$ref x schema {required_int, nullable} x content in " + json.dumps(extra.CONTENT_VARIANTS) + " (2.0: produces in "
+               + json.dumps(sorted(extra.PRODUCES)) + " and the six of family R, with and without schema); the seven content variants of family R once",
+               "responses": "status 200 x (the eight Content-Types of family R + " + json.dumps([c[1] for c in extra.MEDIA_CONTENT_TYPES]) + ") x six bodies"},
+    "headers": {"documents": "key 200 | default x content {json, none} x behind-$ref x headers in " + json.dumps(extra.HEADER_VARIANTS_3) + " (2.0: " + json.dumps(extra.HEADER_VARIANTS_2) + ")",
+               "responses": "status {200, 404} x json x body {valid_A, invalid_A} x the variant's header space (absent / valid / invalid / empty values, names in two letter cases, two headers in both orders)"},
+    "entry": {"documents": "keys [200] | [2XX, default] (2.0: [200, default]) x schema {required_int, nullable} x required integer X-A",
+               "responses": "built by Response.from_requests from a requests.Response, header names in lower case: status {200, 404} x Content-Type {absent, json, json;charset, upper case, text/plain, malformed} x six bodies x x-a {absent, 1, x}"},
+}
 BOUNDS = {
     "quick": {
         "specs": ["3.0", "2.0"], "statuses": {"family_S": STATUSES, "family_R": R_STATUSES_QUICK}, "content_types": [c[0] for c in CONTENT_TYPES], "x_a": [x[0] for x in XA_VALUES],
         "bodies": ["valid_A", "invalid_A", "valid_B_only", "null", "malformed_json", "empty", "write_only_present (writeOnly family)"],
         "family_S_keys": "every non-empty subset of {200 as '200' or as integer 200, 201, 2XX, 4XX, default} in both writing orders x every choice of the key carrying Pa",
         "family_R_keysets": [["200"], ["default"]], "family_R_keysets_2.0": [["200"]],
-        "validate_response_all_four_checks": "every pair of family S; pairs of family R without an X-A header",
+        "validate_response_all_four_checks": "every pair of family S; pairs of family R without an X-A header", "is_response_valid": "families S and R: pairs without an X-A header (it does not look at other headers than Content-Type)",
         "content": ["none", "json:A", "json:A+xml:B", "xml:B+json:A", "*/*:A", "problem+json:A", "json:A+problem+json:B"],
         "schemas_A": ["required_int", "nullable", "write_only", "read_only", "ref", "recursive_ref"],
         "headers": ["none", "required_int", "optional_string", "ref"], "response_behind_ref": [False, True],
         "swagger_produces": ["none", "json", "json+xml", "xml+json", "problem_json", "global_json"],
+        "openapi_3.1_slim": "family S: the two 5-key sets in both orders x every Pa; family R: key 200 x content {json, json+problem} x 6 schema families x headers {none, ref} x behind-$ref",
+        "family_X": _FAMILY_X,
     },
     "thorough": {
         "specs": ["3.0", "2.0", "3.1"], "statuses": STATUSES, "content_types": [c[0] for c in CONTENT_TYPES], "x_a": [x[0] for x in XA_VALUES],
@@ -60,11 +81,12 @@ BOUNDS = {
         "family_S_keys": "as quick",
         "family_R_keysets": [["200"], ["default"], ["2XX"], [200], ["200", "default"], ["default", "201"], ["4XX", "default"]],
         "family_R_keysets_2.0": [["200"], ["default"], [200], ["200", "default"], ["default", "201"]],
-        "validate_response_all_four_checks": "every pair",
+        "validate_response_all_four_checks": "every pair", "is_response_valid": "as quick",
         "content": ["none", "json:A", "json:A+xml:B", "xml:B+json:A", "*/*:A", "problem+json:A", "json:A+problem+json:B"],
         "schemas_A": ["required_int", "nullable", "write_only", "read_only", "ref", "recursive_ref", "ref_two_levels"],
         "headers": ["none", "required_int", "optional_string", "ref"], "response_behind_ref": [False, True],
         "swagger_produces": ["none", "json", "json+xml", "xml+json", "problem_json", "global_json"],
+        "family_X": _FAMILY_X,
     },
 }
 BUDGET_S = {"quick": 140, "thorough": 2400}
@@ -82,13 +104,16 @@ LEVEL_NOTE = (
     "Exploration, not model checking: there is no transition system; `states` counts the enumerated (document, response) points of the "
     "product, `transitions` stays 0. Trusted: oracles/responses.py and oracles/jsonschema_mini.py (the constructive labels of the body "
     "alphabet are cross-checked against the evaluator in every item). Not covered: definitions and responses outside the grammar "
-    "(external references, other keywords, multi-valued headers, encodings other than UTF-8)."
+    "(external references, other keywords, multi-valued headers, array-valued headers, encodings other than UTF-8, a lower-case status range "
+    "key `2xx` - OpenAPI allows the upper-case X only, so nothing is documented by it). APIOperation.is_response_valid is judged through "
+    "response_schema_conformance (itself judged by the oracle): it must return False exactly when that check reports failures, and never raise."
 )
 ASSUMPTIONS = [
     "an integer key 200 documents status 200 exactly like the string key '200' (YAML authors write it that way; schemathesis' own status check treats both alike)",
     "media types are compared case-insensitively and without parameters (RFC 7231); the most specific documented media type applies",
     "left open, never reported: Content-Type when no media type is documented or the status is undocumented; the body when the Content-Type is absent / malformed / not JSON / undocumented; everything about content for status 204; a writeOnly property present in a response body (SHOULD NOT); status ranges in OpenAPI 2.0 (not enumerated)",
     "an empty or malformed body under a documented JSON media type with a schema is a deviation (it cannot conform to the schema)",
+    "a header documented with `content` instead of `schema` is judged for presence only (its value is left open); boolean header values other than true/false and numeric spellings other than plain decimals are not enumerated",
     "failures are attributed to the deviation aspect by their class (e.g. MissingContentType raised by response_schema_conformance counts for the Content-Type aspect), so a check reporting another aspect's deviation is never an alarm by itself",
 ]
 
@@ -130,11 +155,31 @@ def schema_a(family: str, spec: str) -> tuple[Any, dict]:
     if family == "recursive_ref":
         node = {"type": "object", "properties": {"id": {"type": "integer"}, "next": {"$ref": prefix + "N"}}, "required": ["id"]}
         return {"$ref": prefix + "N"}, {"N": node}
+    if family in extra.SCHEMA_FAMILIES:
+        return extra.schema_a(family, spec, prefix)
     raise ValueError(family)
 
 
-def bodies(family: str) -> list[tuple[str, bytes]]:
-    """The body alphabet; 'valid_A' / 'invalid_A' / 'valid_B_only' are labels by construction (cross-checked in every item)."""
+def bodies(family: str, extended: bool = False) -> list[tuple[str, bytes]]:
+    """The body alphabet; 'valid_A*' / 'invalid_A*' / 'valid_B_only' are labels by construction (cross-checked in every item).
+
+    ``extended`` (family X, dimension 'schema') adds ``{}``, ``[]`` and the valid body surrounded by white space.
+    """
+    own = extra.family_bodies(family)
+    if own is not None:
+        labelled = dict(own)
+        out = [
+            ("valid_A", json.dumps(labelled["valid_A"]).encode()),
+            ("invalid_A", json.dumps(labelled["invalid_A"]).encode()),
+            ("valid_B_only", json.dumps({"name": "x"}).encode()),
+            ("null", b"null"),
+            ("malformed_json", b'{"id":'),
+            ("empty", b""),
+        ]
+        out += [(label, json.dumps(value).encode()) for label, value in own if label not in ("valid_A", "invalid_A")]
+        if extended:
+            out += extra.extra_bodies(out[0][1])
+        return out
     if family == "nullable":
         valid, invalid = "s", 1
     elif family == "recursive_ref":
@@ -151,6 +196,8 @@ def bodies(family: str) -> list[tuple[str, bytes]]:
     ]
     if family == "write_only":
         out.append(("write_only_present", json.dumps({"id": 1, "pw": "s"}).encode()))
+    if extended:
+        out += extra.extra_bodies(out[0][1])
     return out
 
 
@@ -158,6 +205,8 @@ def header_objects(variant: str, spec: str) -> tuple[dict | None, dict]:
     """(headers member of the response object, components.headers it needs)."""
     if variant == "none":
         return None, {}
+    if variant in extra.HEADER_VARIANTS_3:
+        return extra.header_objects(variant, spec)
     if spec == "2.0":
         # a Swagger 2.0 Header Object is the schema itself and has no `required`
         return {"X-A": {"type": "integer" if variant == "required_int" else "string"}}, {}
@@ -186,12 +235,15 @@ def content_object(variant: str, a: Any) -> dict | None:
         return {"application/problem+json": {"schema": a}}
     if variant == "json_problem":
         return {"application/json": {"schema": a}, "application/problem+json": {"schema": b}}
+    if variant in extra.CONTENT_VARIANTS:
+        return extra.content_object(variant, a)
     raise ValueError(variant)
 
 
 PRODUCES = {
     "none": None, "json": ["application/json"], "json_xml": ["application/json", "application/xml"],
     "xml_json": ["application/xml", "application/json"], "problem": ["application/problem+json"], "global_json": None,
+    **extra.PRODUCES,
 }
 
 
@@ -267,6 +319,10 @@ def items(tier: str, seed: int) -> list[dict]:
                             for family in (families if content != "none" else ["required_int"]):
                                 out.append({"fam": "R", "spec": spec, "keys": keys, "content": content, "schema": family,
                                             "header": header, "via_ref": via_ref, "produces": None})
+    # review round 2: OpenAPI 3.1 in the quick tier (slim), and family X (mc/c04_extra.py) for every spec version
+    if "3.1" not in b["specs"]:
+        out.extend(extra.slim_31_items())
+    out.extend(extra.items(tier, ["3.0", "2.0", "3.1"]))
     return out
 
 
@@ -380,6 +436,19 @@ def observe(case: Any, ctx: Any, response: Any, checks: list) -> tuple[dict, dic
     return {k: sorted(v) for k, v in aspects.items()}, crashes, sorted(classes)
 
 
+def observe_is_valid(operation: Any, response: Any) -> Any:
+    """``APIOperation.is_response_valid`` (documented to return a bool): True / False, or a dict naming what happened instead."""
+    from schemathesis.core.failures import FailureGroup
+
+    try:
+        value = operation.is_response_valid(response)
+    except FailureGroup as group:
+        return {"raised": "FailureGroup", "failures": "+".join(sorted({type(f).__name__ for f in group.exceptions}))}
+    except Exception as exc:  # noqa: BLE001
+        return {"raised": f"{type(exc).__module__}.{type(exc).__name__}"}
+    return value if isinstance(value, bool) else {"returned": type(value).__name__}
+
+
 def observe_group(case: Any, response: Any, checks: list) -> tuple[list | None, str | None]:
     """The documented entry point with all four checks: (sorted failure class names or None on a crash, crash repr)."""
     from schemathesis.core.failures import FailureGroup
@@ -396,13 +465,13 @@ def observe_group(case: Any, response: Any, checks: list) -> tuple[list | None, 
 def _self_check(res: Result, doc: dict, spec: str, family: str) -> None:
     """Second opinion on the schema verdicts: the constructive labels of the body alphabet must agree with the evaluator."""
     a, _ = schema_a(family, spec)
-    for label, raw in bodies(family):
-        if label not in ("valid_A", "invalid_A", "valid_B_only", "null"):
+    for label, raw in bodies(family, extended=True):
+        if label in ("malformed_json", "empty", "write_only_present"):
             continue
         value = json.loads(raw)
         got_a = verdict(doc_with_components(doc, spec, family), a, value, spec=spec, direction="response")
         got_b = verdict(None, B_SCHEMA, value, spec=spec, direction="response")
-        want_a = label == "valid_A" or (label == "null" and family == "nullable")
+        want_a = label.startswith("valid_A") or (label == "null" and family == "nullable")
         want_b = label == "valid_B_only"
         if got_a is not want_a or got_b is not want_b:
             res.oracle_errors.append({"error": "body label disagrees with the evaluator", "family": family, "label": label,
@@ -437,40 +506,67 @@ def check_item(item: dict, tier: str) -> Result:
     shown_doc = _json_safe(doc)
     seen: dict = {}
     index = 0
+    via_requests = extra.RequestsResponses() if item.get("dim") == "entry" else None
+    for point in response_space(item, tier, family):
+        index += 1
+        status, ct, body = point["status"], point["ct"], point["body"]
+        wire: list[list[str]] = ([[point["ct_name"], ct]] if ct is not None else []) + point["headers"]
+        if via_requests is not None:
+            response = via_requests.build(status, wire, body, request)
+            res.count("response_built_by_from_requests")
+        else:
+            response = Response(status_code=status, headers={name: [value] for name, value in wire}, content=body, request=request,
+                                elapsed=0.1, verify=False)
+        want = oracle.expected(doc, spec, "/t", "get", status, {name.lower(): value for name, value in wire}, body)
+        got, crashes, classes = observe(case, ctx, response, checks)
+        res.evaluations += len(checks)
+        group, group_crash, is_valid = SKIPPED, None, SKIPPED
+        if point["group"]:
+            group, group_crash = observe_group(case, response, checks)
+            res.evaluations += 1
+        if point["is_valid"]:
+            is_valid = observe_is_valid(operation, response)
+            res.evaluations += 1
+        res.traces += 1
+        res.states += 1
+        desc = {"status": status, "content_type": ct, "body": body.decode(), "x_a": point["x_a"]}
+        if item["fam"] == "X":
+            desc["headers_as_sent"] = wire
+            res.count("dim_" + item["dim"])
+        judge(res, item, doc, want, got, crashes, classes, group, group_crash, desc,
+              {"content_type_class": point["ct_class"], "body_class": point["body_class"], "header_value": point["header_class"]},
+              item_key, index, shown_doc, seen, is_valid)
+    return res
+
+
+def response_space(item: dict, tier: str, family: str) -> list[dict]:
+    """The responses one document is paired with: the full product for families S and R, the dimension's own alphabet for family X."""
+    if item["fam"] == "X":
+        points = extra.response_space(item, CONTENT_TYPES, bodies(family, extended=item["dim"] == "schema"))
+        for point in points:
+            # Case.validate_response and APIOperation.is_response_valid on every pair
+            point["group"] = point["is_valid"] = True
+            point["x_a"] = None
+        return points
+    out = []
     statuses = STATUSES if item["fam"] == "S" or tier == "thorough" else R_STATUSES_QUICK
     # Case.validate_response with all four checks (it also renders the failure report and the curl command, which is the
-    # expensive part): on every pair, except in quick / family R where it runs on the pairs without an X-A header only
+    # expensive part): on every pair, except in quick / family R where it runs on the pairs without an X-A header only;
+    # APIOperation.is_response_valid (which does not look at headers other than Content-Type): on the pairs without an X-A header
     with_group_everywhere = item["fam"] == "S" or tier == "thorough"
     for status in statuses:
         for ct_class, ct in CONTENT_TYPES:
             for body_class, body in bodies(family):
                 for xa_class, xa in XA_VALUES:
-                    index += 1
-                    raw_headers: dict[str, list[str]] = {}
-                    if ct is not None:
-                        raw_headers["Content-Type"] = [ct]
-                    if xa is not None:
-                        raw_headers["X-A"] = [xa]
-                    response = Response(status_code=status, headers=raw_headers, content=body, request=request, elapsed=0.1, verify=False)
-                    want = oracle.expected(doc, spec, "/t", "get", status, {k.lower(): v[0] for k, v in raw_headers.items()}, body)
-                    got, crashes, classes = observe(case, ctx, response, checks)
-                    res.evaluations += len(checks)
-                    if with_group_everywhere or xa is None:
-                        group, group_crash = observe_group(case, response, checks)
-                        res.evaluations += 1
-                    else:
-                        group, group_crash = SKIPPED, None
-                    res.traces += 1
-                    res.states += 1
-                    desc = {"status": status, "content_type": ct, "body": body.decode(), "x_a": xa}
-                    judge(res, item, doc, want, got, crashes, classes, group, group_crash, desc,
-                          {"content_type_class": ct_class, "body_class": body_class, "header_value": xa_class}, item_key, index,
-                          shown_doc, seen)
-    return res
+                    out.append({"status": status, "ct_class": ct_class, "ct": ct, "ct_name": "Content-Type", "body_class": body_class,
+                                "body": body, "header_class": xa_class, "headers": [["X-A", xa]] if xa is not None else [], "x_a": xa,
+                                "group": with_group_everywhere or xa is None, "is_valid": xa is None})
+    return out
 
 
 def judge(res: Result, item: dict, doc: dict, want: dict, got: dict, crashes: dict, classes: list, group: list | None,
-          group_crash: str | None, desc: dict, classes_of_input: dict, item_key: str, index: int, shown_doc: Any, seen: dict) -> None:
+          group_crash: str | None, desc: dict, classes_of_input: dict, item_key: str, index: int, shown_doc: Any, seen: dict,
+          is_valid: Any = SKIPPED) -> None:
     facts = want["facts"]
 
     def violation(signature: dict, detail: dict) -> None:
@@ -487,7 +583,8 @@ def judge(res: Result, item: dict, doc: dict, want: dict, got: dict, crashes: di
     spec = item["spec"]
     base = {"spec": spec, "selected_by": facts.get("selected_by"), "key_form": facts.get("key_form")}
     detail_base = {"document": shown_doc, "response": desc, "response_classes": classes_of_input, "oracle": {a: list(want[a]) for a in oracle.ASPECTS},
-                   "oracle_facts": facts, "observed": got, "crashes": crashes, "validate_response_all_four": group}
+                   "oracle_facts": facts, "observed": got, "crashes": crashes, "validate_response_all_four": group,
+                   "is_response_valid": is_valid}
     for name in classes:
         res.count("observed_" + name)
     for entry in got.get("headers", []):
@@ -495,6 +592,7 @@ def judge(res: Result, item: dict, doc: dict, want: dict, got: dict, crashes: di
     for entry in got.get("body", []):
         res.count("observed_body_" + entry.split(":")[1])
     res.count("selected_by_" + str(facts.get("selected_by")))
+    res.count("spec_" + spec)
     decided_beyond_status = False
     for aspect in oracle.ASPECTS:
         verdict_, why = want[aspect]
@@ -516,7 +614,13 @@ def judge(res: Result, item: dict, doc: dict, want: dict, got: dict, crashes: di
         else:
             res.count(f"agree_{aspect}_{verdict_}")
             if aspect == "body" and verdict_ in (oracle.PASS, oracle.FAIL) and facts.get("media_type_position"):
-                res.count(f"agree_body_{item['schema'] if item['fam'] == 'R' else 'required_int'}_{verdict_}")
+                res.count(f"agree_body_{item.get('schema', 'required_int')}_{verdict_}")
+            if item["fam"] == "X":
+                res.count(f"agree_{item['dim']}_{aspect}_{verdict_}")
+                if item["dim"] == "headers" and aspect == "headers":
+                    res.count(f"agree_header_variant_{item['header']}_{verdict_}")
+                elif item["dim"] == "media" and aspect in ("content_type", "body"):
+                    res.count(f"agree_documented_{item['produces'] if spec == '2.0' else item['content']}_{aspect}_{verdict_}")
     if "other" in got:
         violation({**base, "aspect": "other", "direction": "unknown_failure_class", "classes": got["other"]}, detail_base)
     for check_name, text in sorted(crashes.items()):
@@ -536,6 +640,19 @@ def judge(res: Result, item: dict, doc: dict, want: dict, got: dict, crashes: di
     elif bool(crashes) != (group_crash is not None):
         violation({**base, "aspect": "all", "direction": "validate_response_crash_differs_from_single_checks"},
                       {**detail_base, "group_crash": group_crash})
+    # the other documented entry point of the body check: APIOperation.is_response_valid says False exactly when
+    # response_schema_conformance (the same validation behind the check interface) reports failures, and never raises
+    if is_valid != SKIPPED and "response_schema_conformance" not in crashes:
+        reported = sorted(entry.split(":")[1] for entries in got.values() for entry in entries if entry.startswith("response_schema_conformance:"))
+        if not isinstance(is_valid, bool):
+            violation({**base, "aspect": "body", "direction": "is_response_valid_did_not_return_a_bool", **is_valid,
+                       "content_type_class": classes_of_input["content_type_class"]},
+                      {**detail_base, "response_schema_conformance_reported": reported})
+        elif is_valid is bool(reported):
+            violation({**base, "aspect": "body", "direction": "is_response_valid_disagrees_with_response_schema_conformance",
+                       "is_response_valid": is_valid}, {**detail_base, "response_schema_conformance_reported": reported})
+        else:
+            res.count(f"is_response_valid_{is_valid}")
     if decided_beyond_status:
         res.nontrivial.add(f"{item_key}{index:03x}")
     if len(res.samples) < 2 and decided_beyond_status and index % 97 == 5:
@@ -559,8 +676,16 @@ def _aspect_facts(aspect: str, item: dict, facts: dict, classes_of_input: dict, 
         out["media_type_position"] = facts.get("media_type_position")
         if "first_media_type_verdict" in facts:
             out["first_media_type_verdict"] = facts["first_media_type_verdict"]
-        out["schema_family"] = item["schema"] if item["fam"] == "R" else "required_int"
+        out["schema_family"] = item.get("schema", "required_int")
         out["why"] = why
+    if item["fam"] == "X":
+        # the varied part of the document of family X
+        if item["dim"] == "headers":
+            out["header_variant"] = item["header"]
+        elif item["dim"] == "media":
+            out["documented_media_types"] = item["produces"] if item["spec"] == "2.0" else item["content"]
+        elif item["dim"] == "entry":
+            out["response_built_by"] = "Response.from_requests"
     return out
 
 
@@ -594,6 +719,34 @@ def vacuity(total: Result, tier: str) -> list[str]:
                 out.append(f"schema family {family} never decided {verdict_} in agreement with the real check")
     if not c.get("group_call_agrees"):
         out.append("Case.validate_response was never compared with the single checks")
+    # review round 2
+    for family in extra.SCHEMA_FAMILIES:
+        for verdict_ in (oracle.PASS, oracle.FAIL):
+            if not c.get(f"agree_body_{family}_{verdict_}"):
+                out.append(f"schema family {family} never decided {verdict_} in agreement with the real check")
+    for variant in extra.HEADER_VARIANTS_3:
+        for verdict_ in (oracle.PASS, oracle.FAIL):
+            if not c.get(f"agree_header_variant_{variant}_{verdict_}") and not (variant == "empty_headers" and verdict_ == oracle.FAIL):
+                out.append(f"header variant {variant} never decided {verdict_} in agreement with the real check")
+    for variant in [*extra.CONTENT_VARIANTS, *extra.PRODUCES]:
+        for aspect in ("content_type", "body"):
+            for verdict_ in (oracle.PASS, oracle.FAIL):
+                nothing_to_decide = (variant in ("empty_content", "empty") and (aspect == "content_type" or verdict_ == oracle.FAIL)) or (
+                    variant == "json_noschema" and aspect == "body" and verdict_ == oracle.FAIL) or (
+                    # KF-C04-R1: with a first media type without schema the real check never fails a body
+                    variant == "plain_json" and aspect == "body" and verdict_ == oracle.FAIL)
+                if not c.get(f"agree_documented_{variant}_{aspect}_{verdict_}") and not nothing_to_decide:
+                    out.append(f"documented media types '{variant}': {aspect} never decided {verdict_} in agreement with the real check")
+    for dim in ("schema", "media", "headers", "entry"):
+        if not c.get("dim_" + dim):
+            out.append(f"family X, dimension {dim}: no pair")
+    if not c.get("response_built_by_from_requests"):
+        out.append("no response was built by Response.from_requests")
+    for value in (True, False):
+        if not c.get(f"is_response_valid_{value}"):
+            out.append(f"APIOperation.is_response_valid never returned {value} in agreement with response_schema_conformance")
+    if tier == "quick" and not c.get("spec_3.1"):
+        out.append("no OpenAPI 3.1 document in the quick tier")
     if len(total.outcomes) < 2:
         out.append("a single outcome class")
     return out
